@@ -80,13 +80,42 @@ def main(tier):
         co += 1
         if lhs != rhs:
             chk.add_failure(d, {"what": "can_optimize(p) differs from optimize(p) != p", "can_optimize": lhs}, None)
+    # ... and over the term spaces of C01-C03 (the definition must hold for every tree, e.g. for the pairs of
+    # quantifier forms that optimize only swaps: all(~x) | ~any(x))
+    from .. import cases
+    from . import c03
+
+    sweep = list(cases.trees_upto(5 if tier == "quick" else 6, cases.prop_leaves(cases.NAMES3)))
+    elems = cases.elem_preds()
+    for x in elems:
+        duals = [(("all", ("not", x)), ("not", ("any", x))), (("any", ("not", x)), ("not", ("all", x)))]
+        duals += [(("all", x), ("not", ("any", ("not", x)))), (("any", x), ("not", ("all", ("not", x))))]
+        for a, b in duals:
+            for op in ("and", "or", "xor"):
+                sweep += [(op, a, b), (op, b, a), ("not", (op, a, b))]
+    sweep += [(op, a, b) for op in ("and", "or", "xor") for a, b in [(("all", "notnone"), ("not", ("any", "none"))), (("any", ("ne", "2")), ("not", ("all", ("eq", "2"))))]]
+    _e, singles, nested, pairs, rnd = c03.gen("quick", chk.seed)
+    sweep += singles + nested + rng.sample(pairs, 4000 if tier == "quick" else len(pairs)) + rnd
+    sweep += rng.sample(list(cases.pair_shapes(cases.scalar_atoms())), 4000 if tier == "quick" else 20000)
+    for sx in sweep:
+        a = lift.lower(sx)
+        try:
+            lhs, rhs = can_optimize(a), optimize(a) != a
+        except Exception as e:  # noqa: BLE001
+            chk.add_failure(S.show(sx), {"what": f"can_optimize/optimize raised {type(e).__name__}"}, None)
+            continue
+        co += 1
+        chk.evaluations += 1
+        if lhs != rhs:
+            chk.add_failure(S.show(sx), {"what": "can_optimize(p) differs from optimize(p) != p", "can_optimize": lhs}, None)
     chk.extra["equal_pairs_checked_on_values"] = eq_pairs
     chk.extra["can_optimize_cases"] = co
     chk.rule = (
         "pool of %d predicates: every exported constructor at 2-4 parameter choices (constants of several types incl. True/1/1.0, bounds, sets, patterns "
         "and flags, keys, lengths, class tuples in both orders, functions incl. built-ins, reference names, getters, nested 'of' forms) plus random "
         "composites; ALL ordered pairs: model beq vs Python == (the right operand is a structurally equal fresh copy); then on the real code: "
-        "reflexivity on copies, symmetry, unordered operands, equal => same answers on %d probe values, can_optimize definition. "
+        "reflexivity on copies, symmetry, unordered operands, equal => same answers on %d probe values; can_optimize(p) == (optimize(p) != p) on the pool and on "
+        "the C01-C03 term spaces (all propositional trees <= 5 nodes, quantified / subset singles, nested and sampled pairs, scalar pair shapes, the dual quantifier forms). "
         "non-trivial = distinct pairs i != j that compare equal." % (n, len(pool.PROBE_VALUES))
     )
     chk.samples = [f"{meta[k][0]}  ==  {meta[k][1]}  ->  {expect[k]}" for k in (1, n + 1, 2 * n + 5)]
